@@ -18,7 +18,7 @@ def concretise(seq):
         elif k == "OTHER":
             lines.append("REMARK 300 ignorable record %d" % i)
         else:
-            rn = "ALA" if r["rn"] == "AA" else "HOH"
+            rn = {"AA": "ALA", "AB": "SER"}.get(r["rn"], "HOH")
             nm = r["nm"]
             if nm == "N":
                 name, el = "N", "N"
@@ -27,7 +27,7 @@ def concretise(seq):
             elif nm == "H":
                 name, el = "H", "H"
             else:
-                name, el = ("CB", "C") if r["rn"] == "AA" else ("O", "O")
+                name, el = ("CB", "C") if r["rn"] in ("AA", "AB") else ("O", "O")
             x, y, z = 1000 + 1537 * i, 2000 + 11 * i, 3000 - 7 * i
             lines.append(pdbio.atom_line(k, serial=i + 1, name=name, alt=r["alt"], resn=rn, chain=r["ch"], num=r["num"],
                                          icode=IC.get(r["ic"], r["ic"]), x=x, y=y, z=z, elem=el))
